@@ -489,7 +489,11 @@ TParts ==
 \* every key exactly once, one terminator per stream, no error
 TBulk ==
     /\ Is("BulkStream") /\ Adv
-    /\ viol' = viol \cup V(E.setup_ok => (E.missing = 0 /\ E.dups = 0 /\ E.foreign = 0 /\ E.streamed = E.n /\ E.terms = E.pieces /\ E.err = ""),
+    \* (with a transient iterator error injected into the scan the stream may end with an error instead -- one terminator, and
+    \*  what was sent before is still sent once)
+    /\ viol' = viol \cup V(E.setup_ok => (/\ E.dups = 0 /\ E.foreign = 0 /\ E.terms = E.pieces
+                                            /\ (E.err = "" => (E.missing = 0 /\ E.streamed = E.n))
+                                            /\ (~E.iter_fault => E.err = "")),
                              "BulkStreamExactlyOnce")
     /\ UNCHANGED <<idx, ver, hv, floor, cm, base, pend, maxRet, seen, maxRev, evlog, ws, rds, prefixes, cmax, expiring, chg, ttl>>
 
